@@ -113,10 +113,14 @@ class Exp(MathFunction):
 
     def __new__(cls, argument):
         """Create a new Exp."""
-        if isinstance(argument, RealValue | Zero):
-            return FloatValue(math.exp(float(argument)))
-        if isinstance(argument, (ComplexValue)):
-            return ComplexValue(cmath.exp(complex(argument)))
+        try:
+            if isinstance(argument, RealValue | Zero):
+                return FloatValue(math.exp(float(argument)))
+            if isinstance(argument, (ComplexValue)):
+                return ComplexValue(cmath.exp(complex(argument)))
+        except OverflowError:
+            # Too large to fold into a float literal, keep it symbolic
+            pass
         return MathFunction.__new__(cls)
 
     def __init__(self, argument):
@@ -216,10 +220,14 @@ class Cosh(MathFunction):
 
     def __new__(cls, argument):
         """Create a new Cosh."""
-        if isinstance(argument, RealValue | Zero):
-            return FloatValue(math.cosh(float(argument)))
-        if isinstance(argument, (ComplexValue)):
-            return ComplexValue(cmath.cosh(complex(argument)))
+        try:
+            if isinstance(argument, RealValue | Zero):
+                return FloatValue(math.cosh(float(argument)))
+            if isinstance(argument, (ComplexValue)):
+                return ComplexValue(cmath.cosh(complex(argument)))
+        except OverflowError:
+            # Too large to fold into a float literal, keep it symbolic
+            pass
         return MathFunction.__new__(cls)
 
     def __init__(self, argument):
@@ -235,10 +243,14 @@ class Sinh(MathFunction):
 
     def __new__(cls, argument):
         """Create a new Sinh."""
-        if isinstance(argument, RealValue | Zero):
-            return FloatValue(math.sinh(float(argument)))
-        if isinstance(argument, (ComplexValue)):
-            return ComplexValue(cmath.sinh(complex(argument)))
+        try:
+            if isinstance(argument, RealValue | Zero):
+                return FloatValue(math.sinh(float(argument)))
+            if isinstance(argument, (ComplexValue)):
+                return ComplexValue(cmath.sinh(complex(argument)))
+        except OverflowError:
+            # Too large to fold into a float literal, keep it symbolic
+            pass
         return MathFunction.__new__(cls)
 
     def __init__(self, argument):
